@@ -180,7 +180,7 @@ def run(ctx):
     fc.update(arrays.field_upper_bounds(P, ["src/encoding/delta.c"], "delta_decoder_t", inv_delta))
     afns = [f for f in P.funcs_in("src/encoding/delta.c", "src/encoding/rle.c", "src/thrift/thrift_decode.c")
             if is_decoder(f)]
-    na = arrays.check(ctx, afns, field_consts=fc)
+    na = arrays.check(ctx, afns, field_consts=fc, skip_records=("carquet_rle_encoder", "delta_encoder_t", "thrift_encoder"))
     ctx.floor("C08 variable indices into fixed-size decoder state", na, 10)
 
     # ---- (4) sign-safe guards
